@@ -184,4 +184,18 @@ theorem C16_dialog_wired_fdd (freq : List Rat) (evs : List Event) :
     rw [C16_step_wired_fdd]; rfl
   simp [dialogWired, hi, hr, hs, readResult, run, State.result]
 
+/-! ## non-vacuity: the hypotheses `n ∈ ["SSI", "pLSCF"]` are met by both names, and the wired dialog does something -/
+
+private def tbl2 : Mat (Option Rat) :=
+  ⟨2, 2, fun i j => ([[some 1, some (5/4)], [some 3, none]].getD i []).getD j none⟩
+
+example : "SSI" ∈ ["SSI", "pLSCF"] ∧ "pLSCF" ∈ ["SSI", "pLSCF"] := by decide
+/-- a pick with the modifier held is handed over with its order; after the release a right click removes nothing -/
+example : dialogWired "pLSCF" (.stab tbl2)
+    [.keyPress "shift", .click 1 (some (11/4, 0)), .keyRelease "shift", .click 3 none] = some ([3], some [0]) := by
+  decide +kernel
+example : dialogWired "FDD" (.fdd [0, 3/4, 3/2]) [.keyPress "shift", .click 1 (some (7/8, 0))]
+    = some ([3/4], none) := by
+  decide +kernel
+
 end PV.WiringPick
